@@ -144,6 +144,9 @@ class C07:
         return st.one_of([s_ for _, s_, _ in self.strata(ctx)])
 
     def fixed_cases(self, ctx):
+        # constants beyond 1 MiB (readers switch to chunked reads there): bytes and ASCII text, own host vs another
+        for v, other in (("3.11", "3.12"), ("3.12", "3.9"), ("3.8", "3.13")):
+            yield {"k": "values", "v": v, "hosts": [other], "fmt": "classic", "values": [], "big": (1 << 20) + 5}
         files = [p for p in pd.corpus_files() if "dropbox" not in p]
         step = 6 if ctx.tier == "quick" else 1
         for i, p in enumerate(files):
@@ -179,6 +182,13 @@ class C07:
                     res.reject = "malformed-case"
                     return res
                 vals = [_no_huge_ints(t) for t in vals]
+                if case.get("big"):
+                    nbig = int(case["big"])
+                    if not (0 < nbig <= (3 << 20)):
+                        res.reject = "malformed-case"
+                        return res
+                    blob = (b"0123456789abcdef" * (nbig // 16 + 1))[:nbig]
+                    vals = [["y", rw.hx(blob)], ["t", rw.hx(blob[:nbig - 3])], ["i", "5"]]
                 if v == "2.7":
                     # xdis prints Python 2 unicode constants unescaped; a raw line break inside one, together with
                     # the host-dependent element order of sets, moves text between listing lines (not C07's subject)
